@@ -153,6 +153,13 @@ Definition modelled_setters : list (string * bool) :=
 Definition entry_methods : list string := ["placeGlobal"; "legalize"; "placeDetailed"; "place"].
 Definition expansion_methods : list string := ["expandCellsToDensity"; "expandCellsByFactor"].
 
+(* the table lists a hand-over of *this as a non-const reference as the pseudo-field "@pass:<callee>" *)
+Definition is_pass (f : string) : bool := String.prefix "@pass:" f.
+(* an entry point takes the in-use flag (constructs the guard object on isInUse_) BEFORE it hands the circuit on *)
+Definition guard_before_pass (ws : list (string * nat)) : bool :=
+  forallb (fun w => negb (is_pass (fst w)) ||
+                    existsb (fun g => String.eqb (fst g) "isInUse_" && Nat.ltb (snd g) (snd w)) ws) ws.
+
 Definition lookup_guarded (n : string) : option bool :=
   match filter (fun p => String.eqb (fst p) n) modelled_setters with
   | p :: _ => Some (snd p)
@@ -171,7 +178,8 @@ Definition method_okb (m : cmethod) : bool :=
        | Some g => Bool.eqb g (negb (Nat.eqb (m_guard m) 0)) && (negb g || guarded_first)
        | None =>
            Nat.eqb (m_guard m) 0
-           && (if mem (m_name m) entry_methods then forallb (fun w => String.eqb (fst w) "isInUse_") (m_writes m)
+           && (if mem (m_name m) entry_methods
+               then forallb (fun w => String.eqb (fst w) "isInUse_" || is_pass (fst w)) (m_writes m) && guard_before_pass (m_writes m)
                else if mem (m_name m) expansion_methods then forallb (fun w => String.eqb (fst w) "cellWidth_") (m_writes m)
                else match m_writes m with [] => true | _ => false end)
        end.
@@ -188,5 +196,8 @@ Definition methods_ok (ms : list cmethod) : Prop :=
      (* R2 *) (forall g, In (m_name m, g) modelled_setters -> NoDup (map fst modelled_setters) ->
                (g = true <-> m_guard m <> O)) /\
      (* R3 *) ((exists w, In w (m_writes m)) ->
-               In (m_name m) (map fst modelled_setters) \/ In (m_name m) entry_methods \/ In (m_name m) expansion_methods)) /\
+               In (m_name m) (map fst modelled_setters) \/ In (m_name m) entry_methods \/ In (m_name m) expansion_methods) /\
+     (* R4 *) (In (m_name m) entry_methods -> ~ In (m_name m) (map fst modelled_setters) ->
+               forall w, In w (m_writes m) -> is_pass (fst w) = true ->
+               exists g, In g (m_writes m) /\ fst g = "isInUse_" /\ (snd g < snd w)%nat)) /\
   (forall p, In p modelled_setters -> exists m, In m ms /\ m_name m = fst p /\ m_public m = true /\ m_const m = false).
